@@ -1,15 +1,239 @@
-"""T-h5 (part): context managers around h5py handles.
+"""T-h5: an HDF5 file as a symbolic link graph.
 
-`fetch_h5_handle(file)` given an open handle yields that same handle and does not close it (this
-is what its source does for `isinstance(file, h5py.File)`; the path-string branch opens a new
-file and is not used by any contracted caller)."""
+  links : Node -> (Name -> Node)      0 = no link; hard links are node equality
+  attrs : Node -> (Name -> Val)       0 = no attribute (values are opaque integers)
+  dset  : Node -> Val                 content of a dataset node
+  kind  : Node -> {0 unused, 1 group, 2 dataset}
+  next  : first unused node id (create_group / create_dataset return fresh nodes)
+
+Every h5py operation used by the contracted code gets the contract written here (KeyError on a
+missing link, ValueError on create over an existing name, ...).  These are assumed contracts on
+the dependency, audited against the real h5py by pyvc/audits.py."""
 from __future__ import annotations
 
+import z3
+
 from . import theory
-from .core import Unsupported
-from .interp import MODELS
+from .core import RaiseSig, Unsupported, fresh_name
+from .interp import METHODS, MODELS, EngineCallable
 from .models_py import WITH_MODELS
-from .values import Opaque, zbool as zb
+from .values import SV, Maybe, Opaque, PList, maybe, mk, to_z3, zbool
+
+I_ = z3.IntSort()
+NameMap = z3.ArraySort(I_, I_)
+
+
+class H5State:
+    def __init__(self, tag="F"):
+        self.links = z3.Const(fresh_name(tag + "_links"), z3.ArraySort(I_, NameMap))
+        self.attrs = z3.Const(fresh_name(tag + "_attrs"), z3.ArraySort(I_, NameMap))
+        self.dset = z3.Const(fresh_name(tag + "_dset"), z3.ArraySort(I_, I_))
+        self.kind = z3.Const(fresh_name(tag + "_kind"), z3.ArraySort(I_, I_))
+        self.next = z3.Int(fresh_name(tag + "_next"))
+        self.root = z3.Int(fresh_name(tag + "_root"))
+        self.mode = "r+"
+        self.ops: list = []  # log of mutating operations (for frame reports)
+
+    def snapshot(self):
+        s = H5State.__new__(H5State)
+        s.links, s.attrs, s.dset, s.kind, s.next, s.root, s.mode, s.ops = self.links, self.attrs, self.dset, self.kind, self.next, self.root, self.mode, list(self.ops)
+        return s
+
+    def link(self, node, name):
+        return z3.Select(z3.Select(self.links, node), name)
+
+    def attr(self, node, name):
+        return z3.Select(z3.Select(self.attrs, node), name)
+
+    def set_link(self, node, name, target):
+        self.links = z3.Store(self.links, node, z3.Store(z3.Select(self.links, node), name, target))
+
+    def set_attr(self, node, name, val):
+        self.attrs = z3.Store(self.attrs, node, z3.Store(z3.Select(self.attrs, node), name, val))
+
+    def fresh_node(self, path, kind):
+        n = self.next
+        # a fresh node is unused so far: no links, no attributes
+        self.next = z3.simplify(self.next + 1)
+        self.kind = z3.Store(self.kind, n, z3.IntVal(kind))
+        self.links = z3.Store(self.links, n, z3.K(I_, z3.IntVal(0)))
+        self.attrs = z3.Store(self.attrs, n, z3.K(I_, z3.IntVal(0)))
+        return n
+
+
+class H5Node:
+    def __init__(self, st, node, is_file=False):
+        self.st = st
+        self.node = node
+        self.is_file = is_file
+
+    def __repr__(self):
+        return f"H5Node({self.node})"
+
+
+class H5Attrs:
+    def __init__(self, node):
+        self.h = node
+
+
+def name_term(I, name):
+    if isinstance(name, str):
+        return to_z3(name)
+    if isinstance(name, SV) and name.k in ("str", "bytes"):
+        return name.e
+    raise Unsupported(f"h5 name of type {type(name).__name__}")
+
+
+_VAL = {}
+
+
+def val_of(I, v):
+    """Opaque stored value of an engine value (injective on distinct terms is NOT assumed)."""
+    if isinstance(v, (SV,)):
+        f = _VAL.setdefault(v.k, z3.Function("h5val_" + v.k, z3.RealSort() if v.k == "real" else (z3.BoolSort() if v.k in ("bool", "npbool") else I_), I_))
+        return f(v.e)
+    if isinstance(v, (int, float, str, bool, bytes)) or v is None:
+        return z3.IntVal(hash(("const", repr(v))) % (2 ** 40) + 1)
+    key = id(v)
+    cache = I.path.ghost.setdefault("h5vals", {})
+    if key not in cache:
+        cache[key] = (z3.Int(fresh_name("h5val")), v)
+    return cache[key][0]
+
+
+# ---- item access (called from models_py.getitem/setitem/delitem and Interp.contains) ----------
+
+
+def getitem(I, base, idx):
+    if isinstance(base, H5Attrs):
+        st, n = base.h.st, base.h.node
+        nm = name_term(I, idx)
+        if not I.path.branch(st.attr(n, nm) != 0, f"h5-attr-present@{I.cur_line}"):
+            I.raise_(KeyError)
+        return Opaque(f"attr[{idx}]", term=st.attr(n, nm))
+    st, n = base.st, base.node
+    nm = name_term(I, idx)
+    child = st.link(n, nm)
+    if not I.path.branch(child != 0, f"h5-link-present@{I.cur_line}"):
+        I.raise_(KeyError)
+    return H5Node(st, z3.simplify(child))
+
+
+def contains(I, base, idx):
+    if isinstance(base, H5Attrs):
+        return base.h.st.attr(base.h.node, name_term(I, idx)) != 0
+    return base.st.link(base.node, name_term(I, idx)) != 0
+
+
+def setitem(I, base, idx, value):
+    if isinstance(base, H5Attrs):
+        base.h.st.set_attr(base.h.node, name_term(I, idx), val_of(I, value))
+        base.h.st.ops.append(("attr", base.h.node, idx))
+        return
+    if not isinstance(value, H5Node):
+        raise Unsupported("h5 item assignment of a non-handle (dataset creation by assignment)")
+    st, n = base.st, base.node
+    nm = name_term(I, idx)
+    theory.use("T-h5: g[name] = handle creates a hard link (same node); ValueError/OSError if the name exists")
+    if not I.path.branch(st.link(n, nm) == 0, f"h5-link-free@{I.cur_line}"):
+        I.raise_(ValueError)
+    st.set_link(n, nm, value.node)
+    st.ops.append(("link", n, idx, value.node))
+
+
+def delitem(I, base, idx):
+    if isinstance(base, H5Attrs):
+        st, n = base.h.st, base.h.node
+        nm = name_term(I, idx)
+        if not I.path.branch(st.attr(n, nm) != 0, f"h5-attr-present@{I.cur_line}"):
+            I.raise_(KeyError)
+        st.set_attr(n, nm, z3.IntVal(0))
+        return
+    st, n = base.st, base.node
+    nm = name_term(I, idx)
+    if not I.path.branch(st.link(n, nm) != 0, f"h5-link-present@{I.cur_line}"):
+        I.raise_(KeyError)
+    st.set_link(n, nm, z3.IntVal(0))
+    st.ops.append(("unlink", n, idx))
+
+
+def list_keys(I, base):
+    if isinstance(base, H5Node) and base.is_file:
+        theory.use("T-h5: a geoh5 file has exactly one top-level group (the project) -- precondition WF(a)")
+        return PList([mk(I.path.ghost["h5_project_name"], "str")])
+    raise Unsupported("listing the names of an arbitrary h5 group")
+
+
+# ---- methods -----------------------------------------------------------------------------------
+
+
+def _m(name):
+    def deco(fn):
+        METHODS[(H5Node, name)] = fn
+        return fn
+
+    return deco
+
+
+@_m("get")
+def h_get(I, self, name, default=None):
+    child = self.st.link(self.node, name_term(I, name))
+    return maybe(child != 0, H5Node(self.st, z3.simplify(child)))
+
+
+@_m("create_group")
+def h_create_group(I, self, name, **kw):
+    theory.use("T-h5: create_group returns a fresh empty group; ValueError if the name exists")
+    nm = name_term(I, name)
+    if not I.path.branch(self.st.link(self.node, nm) == 0, f"h5-name-free@{I.cur_line}"):
+        I.raise_(ValueError)
+    n = self.st.fresh_node(I.path, 1)
+    self.st.set_link(self.node, nm, n)
+    self.st.ops.append(("create_group", self.node, name, n))
+    return H5Node(self.st, n)
+
+
+@_m("create_dataset")
+def h_create_dataset(I, self, name, *args, **kw):
+    theory.use("T-h5: create_dataset returns a fresh dataset node; ValueError if the name exists")
+    nm = name_term(I, name)
+    if not I.path.branch(self.st.link(self.node, nm) == 0, f"h5-name-free@{I.cur_line}"):
+        I.raise_(ValueError)
+    n = self.st.fresh_node(I.path, 2)
+    self.st.set_link(self.node, nm, n)
+    data = kw.get("data", args[0] if args else None)
+    self.st.dset = z3.Store(self.st.dset, n, val_of(I, data))
+    self.st.ops.append(("create_dataset", self.node, name, n))
+    return H5Node(self.st, n)
+
+
+def _attrs_prop(I, self):
+    return H5Attrs(self)
+
+
+_attrs_prop.is_property = True
+METHODS[(H5Node, "attrs")] = _attrs_prop
+
+
+def _mode_prop(I, self):
+    return self.st.mode
+
+
+_mode_prop.is_property = True
+METHODS[(H5Node, "mode")] = _mode_prop
+
+
+def a_create(I, self, name, data=None, dtype=None, **kw):
+    theory.use("T-h5: attrs.create(name, value) sets (or replaces) one attribute of that node")
+    self.h.st.set_attr(self.h.node, name_term(I, name), val_of(I, data))
+    self.h.st.ops.append(("attr", self.h.node, name))
+    return None
+
+
+METHODS[(H5Attrs, "create")] = a_create
+
+
+# ---- context managers ----------------------------------------------------------------------
 
 
 class CtxMgr:
@@ -27,20 +251,17 @@ def _install():
         return CtxMgr(args[0])
 
     MODELS[id(f)] = (f, model)
-    # other modules import the name directly: same function object
 
 
 def with_handler(I, cm, item, node, frame):
+    from .values import AbsObj, Obj, zbool as zb
+
     if isinstance(cm, CtxMgr):
         if item.optional_vars is not None:
             I.assign(item.optional_vars, cm.value, frame)
         I.exec_body(node.body, frame)
         return None
-    from .values import AbsObj, Obj
-    from .core import RaiseSig
-
     if isinstance(cm, (Obj, AbsObj)):
-        # the context-manager protocol on a real class: __enter__ / __exit__ are executed
         entered = I.call(I.getattr(cm, "__enter__", frame), [], {}, frame)
         if item.optional_vars is not None:
             I.assign(item.optional_vars, entered, frame)
@@ -49,7 +270,7 @@ def with_handler(I, cm, item, node, frame):
         except RaiseSig as sig:
             swallow = I.call(I.getattr(cm, "__exit__", frame), [sig.exc_class, Opaque("exc"), Opaque("tb")], {}, frame)
             t = I.truth(swallow)
-            if isinstance(t, bool) and not t or swallow is None:
+            if swallow is None or (isinstance(t, bool) and not t):
                 raise
             if I.path.branch(zb(t), "exit-swallows"):
                 return None
@@ -67,17 +288,5 @@ def with_handler(I, cm, item, node, frame):
 WITH_MODELS.append(with_handler)
 try:
     _install()
-except Exception:  # geoh5py not importable yet (setup phase)
+except Exception:  # geoh5py not importable yet
     pass
-
-
-def getitem(I, base, idx):
-    raise Unsupported("h5 item access (T-h5 link graph not installed for this contract)")
-
-
-def delitem(I, base, idx):
-    raise Unsupported("h5 item deletion")
-
-
-def list_keys(I, base):
-    raise Unsupported("h5 key listing")
